@@ -479,7 +479,7 @@ func (g *Gen) pairs() {
 		add(kc.Enc{K: "csi", Ps: [][]int{{c}, {3, 1}}, Fin: 'u'})
 	}
 	// three in a row
-	items = append(items, Item{Enc: kc.Enc{K: "esc", B: 'x'}, Then: []kc.Enc{{K: "esc", B: '.'}, {K: "char", Cps: []int{'a'}}}},
+	items = append(items, Item{Enc: kc.Enc{K: "esc", B: '.'}, Then: []kc.Enc{{K: "esc", B: 'x'}, {K: "char", Cps: []int{'a'}}}},
 		Item{Enc: kc.Enc{K: "ss3", B: 'M'}, Then: []kc.Enc{{K: "ss3", B: 'A'}, {K: "c0", B: 9}}})
 	g.emit("pair", items, 12)
 }
